@@ -8,7 +8,10 @@ Tr == ndJsonDeserialize(IOEnv.TRACE)
 
 Pk(e) == [hdr |-> e.h, len |-> e.n, fill |-> 0]
 
-ParseOK(e) ==
+\* the LBRR helper is logged with every standard-framing parse case (field lb)
+LbrrOK(e) == e.sd = 0 => e.lb = HasLbrrOf(Pk(e))
+
+ParseOK0(e) ==
   LET r == Parse(Pk(e), e.sd = 1) IN
   IF e.n < 0 THEN e.r = BAD_ARG
   ELSE IF ~r.ok THEN e.r = INVALID_PACKET
@@ -21,6 +24,8 @@ ParseOK(e) ==
        /\ e.pa = r.padAt
        /\ e.pl = r.pad
        /\ (e.sd = 0 => e.pub = 1)
+
+ParseOK(e) == LbrrOK(e) /\ ParseOK0(e)
 
 FsSeq == <<8000, 12000, 16000, 24000, 48000>>
 HelpOK(e) ==
